@@ -394,12 +394,14 @@ class TextXVisitor(RRELVisitor):
     def _resolve_rule_refs(self, grammar_parser, model_parser):
         """Resolves parser ParsingExpression crossrefs."""
 
-        def _resolve_rule(rule):
+        def _resolve_rule(rule, ref_chain=()):
             """
             Recursively resolve peg rule references.
 
             Args:
                 rule(ParsingExpression or RuleCrossRef)
+                ref_chain(tuple): names of the rules whose bodies are nothing
+                    but a reference and which led directly to this rule.
             """
             if not isinstance(rule, RuleCrossRef) and rule in resolved_rules:
                 return rule
@@ -414,15 +416,13 @@ class TextXVisitor(RRELVisitor):
                 if rule_name in model_parser.metamodel:
                     rule = model_parser.metamodel[rule_name]._tx_peg_rule
                     if isinstance(rule, RuleCrossRef):
-                        if rule_name in resolving_names:
+                        if rule_name in ref_chain:
                             raise TextXSemanticError(
                                 f'Rule "{rule_name}" is defined only by '
                                 "a circular chain of rule references.",
                                 filename=model_parser.metamodel.file_name,
                             )
-                        resolving_names.add(rule_name)
-                        rule = _resolve_rule(rule)
-                        resolving_names.discard(rule_name)
+                        rule = _resolve_rule(rule, ref_chain + (rule_name,))
                         model_parser.metamodel[rule_name]._tx_peg_rule = rule
                     if suppress:
                         # Special case. Suppression on rule reference.
@@ -456,7 +456,6 @@ class TextXVisitor(RRELVisitor):
                 grammar_parser.dprint(f"RESOLVING RULE CROSS-REFS - PASS {i + 1}")
 
             resolved_rules = set()
-            resolving_names = set()
             _resolve_rule(model_parser.parser_model)
 
             # Resolve rules of all meta-classes to handle unreferenced
